@@ -127,11 +127,13 @@ pub struct GenCfg {
     pub late_bias: bool,     // later occurrences introduce several new attributes/children at once
     pub disjoint_attrs_kids: bool, // attribute names of an element differ from its child names (serde-xml-rs)
     pub split_text: bool,    // a comment may split the character data of an element in two text nodes
+    pub max_positions: usize, // upper bound for the number of schema positions of a generated shape
+    pub max_nodes: usize,     // upper bound for the number of elements of one generated document
 }
 
 impl GenCfg {
     pub fn quick() -> Self {
-        GenCfg { max_depth: 4, max_fanout: 5, max_attrs: 4, max_docs: 4, data_oriented: false, adjacent_repeats: false, misc: true, late_bias: false, disjoint_attrs_kids: false, split_text: true }
+        GenCfg { max_depth: 4, max_fanout: 5, max_attrs: 4, max_docs: 4, data_oriented: false, adjacent_repeats: false, misc: true, late_bias: false, disjoint_attrs_kids: false, split_text: true, max_positions: 40, max_nodes: 120 }
     }
 }
 
@@ -145,12 +147,18 @@ fn distinct_sample(rng: &mut Rng, pool: &[String], n: usize) -> Vec<String> {
 }
 
 pub fn gen_shape(rng: &mut Rng, pool: &[String], name: &str, depth: usize, cfg: &GenCfg) -> Shape {
+    let mut budget = cfg.max_positions;
+    gen_shape_b(rng, pool, name, depth, cfg, &mut budget)
+}
+
+fn gen_shape_b(rng: &mut Rng, pool: &[String], name: &str, depth: usize, cfg: &GenCfg, budget: &mut usize) -> Shape {
     let nattrs = rng.below(cfg.max_attrs + 1);
     let attrs = distinct_sample(rng, pool, nattrs);
-    let nkids = if depth >= cfg.max_depth { 0 } else { rng.below(cfg.max_fanout + 1) };
+    *budget = budget.saturating_sub(1);
+    let nkids = if depth >= cfg.max_depth || *budget == 0 { 0 } else { rng.below(cfg.max_fanout + 1).min(*budget) };
     let kid_pool: Vec<String> = if cfg.disjoint_attrs_kids { pool.iter().filter(|n| !attrs.contains(n)).cloned().collect() } else { pool.to_vec() };
     let kid_names = distinct_sample(rng, &kid_pool, nkids);
-    let kids = kid_names.iter().map(|k| gen_shape(rng, pool, k, depth + 1, cfg)).collect();
+    let kids = kid_names.iter().map(|k| gen_shape_b(rng, pool, k, depth + 1, cfg, budget)).collect();
     Shape { name: name.to_string(), attrs, kids, text_weight: rng.below(4) }
 }
 
@@ -166,6 +174,12 @@ fn misc_item(rng: &mut Rng) -> Item {
 
 /// one occurrence of a position. `stage` grows with the occurrence index (used by `late_bias`).
 pub fn gen_node(rng: &mut Rng, shape: &Shape, cfg: &GenCfg, stage: usize) -> Node {
+    let mut budget = cfg.max_nodes;
+    gen_node_b(rng, shape, cfg, stage, &mut budget)
+}
+
+fn gen_node_b(rng: &mut Rng, shape: &Shape, cfg: &GenCfg, stage: usize, budget: &mut usize) -> Node {
+    *budget = budget.saturating_sub(1);
     let mut node = Node::new(&shape.name);
     // attributes: random subset, mostly in pool order, sometimes shuffled
     let keep_num = if cfg.late_bias && stage == 0 { 1 } else { 2 };
@@ -181,13 +195,13 @@ pub fn gen_node(rng: &mut Rng, shape: &Shape, cfg: &GenCfg, stage: usize) -> Nod
     let mut groups: Vec<Vec<Node>> = Vec::new();
     for k in &shape.kids {
         let present = if cfg.late_bias && stage == 0 { rng.chance(1, 3) } else { rng.chance(3, 4) };
-        if !present {
+        if !present || *budget == 0 {
             continue;
         }
         let count = *rng.pick(&[1usize, 1, 1, 1, 2, 2, 3]);
         let mut g = Vec::new();
         for i in 0..count {
-            g.push(gen_node(rng, k, cfg, stage + i));
+            g.push(gen_node_b(rng, k, cfg, stage + i, budget));
         }
         groups.push(g);
     }
